@@ -1,5 +1,81 @@
+import BlockCiphers.Proofs.BeltWide
+import BlockCiphers.Proofs.BeltWideSpec
 /-
-C18 — theorem file (property theorems only).  Filled in as the models it needs are merged; see DESIGN §7 C18.
+C18 — BelT wide-block encryption conforms and rejects short input untouched
+GENERATED statement file (tools/gen_thm.py): every theorem below restates, verbatim, a theorem of a Proofs/ module
+and is proved by applying it.  ONLY property theorems and non-vacuity examples live in Thm/.
 -/
-namespace BC.Thm.C18
-end BC.Thm.C18
+
+namespace BC.Belt
+open Spec.Belt (blockAt xorB)
+/-- C18: on the 64-bit target `belt_wblock_enc` is belt-wblock encryption of STB 34.101.31 §6.2.3 for every
+input of at least 32 bytes (any length) -/
+theorem C18.wblockEnc_eq_spec (K : BitVec 256) (d : Bytes) (h32 : 32 ≤ d.length) (hu : d.length < 2 ^ 64) :
+    wblockEnc d (toKey K) = (.ok, Spec.Belt.wblockEnc K d) :=
+  _root_.BC.Belt.wblockEnc_eq_spec K d h32 hu
+end BC.Belt
+
+namespace BC.Belt
+open Spec.Belt (blockAt xorB)
+/-- C18: `belt_wblock_dec` is belt-wblock decryption of §6.2.4 -/
+theorem C18.wblockDec_eq_spec (K : BitVec 256) (d : Bytes) (h32 : 32 ≤ d.length) (hu : d.length < 2 ^ 64) :
+    wblockDec d (toKey K) = (.ok, Spec.Belt.wblockDec K d) :=
+  _root_.BC.Belt.wblockDec_eq_spec K d h32 hu
+end BC.Belt
+
+namespace BC.Belt
+open Spec.Belt (blockAt xorB)
+/-- the same on a 32-bit target (`usize` = 4 bytes): the round counter `i ≤ 2n` fits -/
+theorem C18.wblockEnc32_eq_spec (K : BitVec 256) (d : Bytes) (h32 : 32 ≤ d.length) (hu : d.length < 2 ^ 32) :
+    wblockEncU 4 d (toKey K) = (.ok, Spec.Belt.wblockEnc K d) :=
+  _root_.BC.Belt.wblockEnc32_eq_spec K d h32 hu
+end BC.Belt
+
+namespace BC.Belt
+open Spec.Belt (blockAt xorB)
+theorem C18.wblockDec32_eq_spec (K : BitVec 256) (d : Bytes) (h32 : 32 ≤ d.length) (hu : d.length < 2 ^ 32) :
+    wblockDecU 4 d (toKey K) = (.ok, Spec.Belt.wblockDec K d) :=
+  _root_.BC.Belt.wblockDec32_eq_spec K d h32 hu
+end BC.Belt
+
+namespace BC.Belt
+open Spec.Belt (blockAt xorB)
+/-- hence both targets compute the same function -/
+theorem C18.wblockEnc_width_independent (K : BitVec 256) (d : Bytes) (h32 : 32 ≤ d.length) (hu : d.length < 2 ^ 32) :
+    wblockEncU 4 d (toKey K) = wblockEncU 8 d (toKey K) :=
+  _root_.BC.Belt.wblockEnc_width_independent K d h32 hu
+end BC.Belt
+
+namespace BC.Belt
+theorem C18.wblockDec_wblockEnc' (data : Bytes) (key : Key) (h : 32 ≤ data.length) :
+    wblockDec (wblockEnc data key).2 key = (.ok, data) :=
+  _root_.BC.Belt.wblockDec_wblockEnc data key h
+end BC.Belt
+
+namespace BC.Belt
+theorem C18.wblockEnc_wblockDec' (data : Bytes) (key : Key) (h : 32 ≤ data.length) :
+    wblockEnc (wblockDec data key).2 key = (.ok, data) :=
+  _root_.BC.Belt.wblockEnc_wblockDec data key h
+end BC.Belt
+
+namespace BC.Belt
+theorem C18.wblockEnc_short (data : Bytes) (key : Key) (h : data.length < 32) :
+    wblockEnc data key = (.invalidLength, data) :=
+  _root_.BC.Belt.wblockEnc_short data key h
+end BC.Belt
+
+namespace BC.Belt
+theorem C18.wblockDec_short (data : Bytes) (key : Key) (h : data.length < 32) :
+    wblockDec data key = (.invalidLength, data) :=
+  _root_.BC.Belt.wblockDec_short data key h
+end BC.Belt
+
+namespace BC.Belt
+theorem C18.wblockEnc_ok (data : Bytes) (key : Key) (h : 32 ≤ data.length) : (wblockEnc data key).1 = .ok :=
+  _root_.BC.Belt.wblockEnc_ok data key h
+end BC.Belt
+
+namespace BC.Belt
+theorem C18.wblockDec_ok (data : Bytes) (key : Key) (h : 32 ≤ data.length) : (wblockDec data key).1 = .ok :=
+  _root_.BC.Belt.wblockDec_ok data key h
+end BC.Belt
